@@ -9,7 +9,8 @@ Campaigns
         fresh `new RegExp(p, f)` per history, p from PATTERNS_A, f from {"", g, y, gy, gi, gm}, s from
         SUBJECTS_A.  One engine script per history; after every step the script records [result, r.lastIndex].
         quick: every history of length 3, VERIF_SEED-rotated 1/20 sample per (p, f, s); thorough: all of
-        length 3 and a 1/100 sample of length 4.
+        length 3, a 1/100 sample of length 4 and 400 + 400 histories of length 5 and 6 over a reduced alphabet
+        (exec, test, lastIndex = 1 | len | "1", match, search) per (p, f, s).
   ar    random histories of length 4..10 (part Hypothesis, part seeded) with two subjects, replacement
         templates, split limits and replaceAll mixed in.
   b     generated (method, pattern AST, flags, subject, extra): match / replace / replaceAll / search / split
@@ -778,10 +779,15 @@ def _record_history(res, case, keyed):
         res["samples"].append({"case": case, "expected": exp, "actual": exp})
 
 
+def ops_reduced(length):
+    """the alphabet of the long (length 5-6) histories: exec, test, three assignments, two string methods"""
+    return [["exec", 0], ["test", 0], ["set", tnum(1)], ["set", tnum(length)], ["set", ["s", "1"]], ["match", 0], ["search", 0]]
+
+
 def task_exhaustive(task):
     """(pattern, flags, subject, n, count or None (= all), selection seed)"""
     pattern, flags, subject, n, count, sel = task
-    ops = ops_for(len(subject))
+    ops = ops_for(len(subject)) if n <= 4 else ops_reduced(len(subject))
     total = len(ops) ** n
     if count is None or count >= total:
         idxs = range(total)
@@ -992,12 +998,14 @@ def main(chk):
                 if thorough:
                     total4 = len(ops_for(len(s))) ** 4
                     tasks.append((p, f, s, 4, total4 // 100, core.shard_seed(chk.seed, ID, "a4", p, f, s)))
+                    for n in (5, 6):  # reduced alphabet
+                        tasks.append((p, f, s, n, 400, core.shard_seed(chk.seed, ID, "a%d" % n, p, f, s)))
     res = pool.run(task_exhaustive, tasks, timeout=1800)
     _merge(chk, res, tasks, "a", True)
 
     # ---- ar: random histories
     n_h = 1500 if not thorough else 15000
-    n_s = 16000 if not thorough else 300000
+    n_s = 16000 if not thorough else 200000
     if "ar" not in parts:
         n_h = n_s = 0
     cases = _hypothesis_cases(chk, "ar", gen_history_case, n_h)
@@ -1010,7 +1018,7 @@ def main(chk):
 
     # ---- b: generated method cases
     n_h = 2000 if not thorough else 20000
-    n_s = 28000 if not thorough else 980000
+    n_s = 28000 if not thorough else 580000
     if "b" not in parts:
         n_h = n_s = 0
     cases = _hypothesis_cases(chk, "b", gen_method_case, n_h)
